@@ -139,12 +139,12 @@ def run_property(ctx, prop):
     return insts, reports
 
 
-def finish(prop, ctx, insts, reports, wall, explanation, not_decided, extra=None, seed=0):
+def finish(prop, ctx, insts, reports, wall, explanation, not_decided, extra=None, seed=0, scratch=False):
     """Apply known findings, write replay files and evidence, print the verdict lines.
     Returns the process exit code."""
     known = [k for k in load_known() if k["property"] == prop]
     known_keys = {k["key"]: k for k in known if k.get("status") == "known"}
-    out_dir = os.path.join(VERIF, "out", prop)
+    out_dir = os.path.join(VERIF, "out", ("scratch-" if scratch else "") + prop)
     os.makedirs(out_dir, exist_ok=True)
     for f in os.listdir(out_dir):
         os.unlink(os.path.join(out_dir, f))
@@ -208,8 +208,9 @@ def finish(prop, ctx, insts, reports, wall, explanation, not_decided, extra=None
         "wall_s": round(wall, 3),
         "violations": len(violations),
     }
-    os.makedirs(os.path.join(VERIF, "evidence"), exist_ok=True)
-    with open(os.path.join(VERIF, "evidence", prop + ".json"), "w") as fh:
+    ev_dir = os.path.join(VERIF, "out", "scratch-evidence") if scratch else os.path.join(VERIF, "evidence")
+    os.makedirs(ev_dir, exist_ok=True)
+    with open(os.path.join(ev_dir, prop + ".json"), "w") as fh:
         json.dump(ev, fh, indent=1, default=str)
     for r in reports:
         print("  rule %-8s instances=%-3d floor=%-3d violations=%d  %s" % (r["rule"], r["instances"], r["floor"], r["violations"], r["desc"][:90]))
